@@ -209,6 +209,19 @@ func runsFor(prop, tier string) []run {
 		} {
 			rs = append(rs, run{a.name, eb.Cfg{RF: 3, N: 3, Alphabet: alpha, Oracles: []string{"c09"}, Drain: true, MaxRegs: 5, MaxRestarts: 1, MaxFaults: 2, Revs: a.revs, States: a.states, ViaREST: true}, pick(5, 7), minutes(pickf(0.3, 2))})
 		}
+		// the replicas' REAL registration loops (sync.Task.AddReplica on real replica servers: ask for the volume, register,
+		// wait for the controller's action or the retry tick, start the volume or join through a rebuild), one task per
+		// replica under step control, every interleaving of their top-level requests; the controller's signal travels
+		// through the real SignalToAdd and the replica's REST start handler
+		for _, a := range []struct {
+			name string
+			revs []int64
+		}{
+			{"rf3-real-registration-loops-revs-159", []int64{1, 5, 9}},
+			{"rf3-real-registration-loops-revs-955", []int64{9, 5, 5}},
+		} {
+			rs = append(rs, run{a.name, eb.Cfg{RF: 3, N: 3, Alphabet: []string{"Boot", "StepB"}, Oracles: []string{"c09", "c18"}, Drain: true, Real: true, MaxRetries: 1, Revs: a.revs}, pick(14, 26), minutes(pickf(0.5, 4))})
+		}
 		// bootstrap again after the volume lost every replica while the controller kept running
 		loss := eb.Cfg{RF: 3, N: 3, Alphabet: []string{"MonFail", "Restart", "Reg", "RegF", "Start", "StartWrong", "Down", "Up"}, Oracles: []string{"c09"}, Drain: true, MaxRegs: 6, MaxRestarts: 3, MaxFaults: 3, InitOps: rw2}
 		rs = append(rs, run{"rf3-rebootstrap-after-total-loss", loss, pick(6, 8), minutes(pickf(0.5, 3))})
